@@ -2,8 +2,8 @@ CONSTANTS
   Descs <- AllDescs
   InitDescs <- Init08
   InitFS <- FS0
-  Editable = {"a", "h", "o1", "b"}
-  Deletable = {"h", "m", "o1", "o2", "gen/o4"}
+  Editable = {"a", "h", "o1"}
+  Deletable = {"h", "m", "o1", "o2"}
   Targets <- NodeTargets
   MaxSteps = 6
   MaxBuilds = 3
